@@ -779,5 +779,26 @@ func UnsupportedValues() []interface{} {
 	type hasChan struct{ C chan int }
 	type hasFunc struct{ F func() }
 	return []interface{}{make(chan int), func() {}, complex(1, 2), complex64(1), uintptr(5), hasChan{}, hasFunc{F: func() {}},
-		[]chan int{nil}, map[string]func(){"a": nil}, &hasChan{C: make(chan int)}, [2]complex128{}}
+		[]chan int{nil}, map[string]func(){"a": nil}, &hasChan{C: make(chan int)}, [2]complex128{},
+		// self-referential types whose unsupported field comes after (or before) the recursive one: a sub-iterator/builder
+		// for *T is generated and cached while T itself is still being generated, and T then fails
+		RecBad1{}, &RecBad1{}, &RecBad1{Next: &RecBad1{}}, RecBad2{}, &RecBad2{Kids: []*RecBad2{{}}}, RecBad3{}, &RecBad3{M: map[string]*RecBad3{"k": {}}},
+		[]RecBad1{{}}, map[string]*RecBad2{"a": {}}}
+}
+
+// RecBad1..3: self-referential struct types with a field of an unsupported kind.
+type RecBad1 struct {
+	Next *RecBad1
+	Hook func()
+}
+
+type RecBad2 struct {
+	C    chan int
+	Kids []*RecBad2
+}
+
+type RecBad3 struct {
+	A int
+	M map[string]*RecBad3
+	Z complex128
 }
